@@ -100,7 +100,16 @@ class SigmaConversionError(SigmaError):
         super().__init__(*args, source=source, **kwargs)
 
     def __str__(self) -> str:
-        return super().__str__() + " in rule " + str(self.rule)
+        # Name the rule instead of dumping its whole representation (including all detections,
+        # parse tree links and internal identifiers) into the message.
+        rule_name = (
+            getattr(self.rule, "title", None)
+            or getattr(self.rule, "name", None)
+            or getattr(self.rule, "id", None)
+        )
+        return super().__str__() + " in rule " + (
+            f"'{rule_name}'" if rule_name else str(self.rule)
+        )
 
 
 class SigmaDetectionError(SigmaError):
